@@ -37,7 +37,7 @@ type targ struct {
 	key     string // "" = brand-new record without key
 	name    string
 	keyOnly bool   // existing record passed with its key only
-	class   string // new | free | linked | other | dup
+	class   string // new | newkey | gone | free | linked | other | dup | absent
 }
 
 type arg struct {
@@ -59,6 +59,7 @@ type step struct {
 	op       string
 	unscoped bool
 	hard     bool // db.Unscoped() as well (permanent delete of soft-delete targets)
+	byVal    bool // slice-level call on a []*Owner passed by value: db.Model(owners)
 	sliceLvl bool
 	owners   []*ownerVal
 	args     []arg
@@ -294,7 +295,11 @@ type kase struct {
 	owners   []string // all owner keys of the operated owner table
 	vals     []*ownerVal
 	slice    reflect.Value // *[]Owner in slice mode
-	universe []string      // composite: unused target keys
+	ptrElems bool          // slice mode: the owners are a []*Owner
+	pool     string        // name of the key pools in use
+	universe []string      // application-assigned keys: unused target keys
+	gone     map[string]string // records removed for good by an Unscoped call of this sequence: key -> name
+	callUsed map[string]bool   // keys of new / re-created records already named in the call being generated
 	noShare  bool          // belongs-to with Unscoped steps: a target is never linked to two owners
 	newSeq   int
 	calls    []string
@@ -312,16 +317,18 @@ func (k *kase) seed() {
 	H.SQL.Exec("DELETE FROM sqlite_sequence")
 	k.m = &model{spec: s, links: map[string]map[string]bool{}, recs: map[string]string{}, soft: map[string]bool{}}
 	// owners
-	opool, tpool := ownerPoolC, targetPoolC
-	if s.composite && r.Bool() {
-		// half of the composite cases use a universe without colliding keys
-		opool, tpool = ownerPoolFree, targetPoolFree
-		k.c.Inc("composite_cases_collision_free_universe")
+	var opool, tpool []string
+	if len(s.pools) > 0 {
+		// (the string-key many-to-many: half of the cases use a universe without colliding keys)
+		ps := s.pools[r.Intn(len(s.pools))]
+		opool, tpool, k.pool = ps.o, ps.t, ps.name
+		k.c.Inc("cases_" + s.name + "_keys_" + ps.name)
 	}
-	if s.composite {
+	k.gone = map[string]string{}
+	if opool != nil {
 		p := r.Perm(len(opool))
 		for i := 0; i < 4; i++ {
-			k.owners = append(k.owners, okey("orgs", opool[p[i]]))
+			k.owners = append(k.owners, okey(s.ownerTab, opool[p[i]]))
 		}
 	} else {
 		p := r.Perm(4)
@@ -339,7 +346,7 @@ func (k *kase) seed() {
 	}
 	// existing target records
 	ne := r.Range(3, 6)
-	if s.composite {
+	if s.assigned {
 		p := r.Perm(len(tpool))
 		for i, j := range p {
 			if i < ne {
@@ -391,34 +398,40 @@ func (k *kase) seed() {
 	}
 	// owner values
 	mk := func(v reflect.Value, o string) string {
-		var boss *int64
+		fk := ""
 		lit := s.ownerLit(o)
 		if s.store == fkOwner {
 			for t := range k.m.links[o] {
-				b := atoi(t)
-				boss = &b
+				fk = t
 				// the value is a loaded record (scalar columns set, relation field not preloaded)
-				if s.fkField == "BossID" {
-					lit = strings.TrimSuffix(lit, "}") + ", BossID:&[int64]{" + t + "}[0]}"
-				} else {
-					lit = strings.TrimSuffix(lit, "}") + ", " + s.fkField + ":" + t + "}"
-				}
+				lit = strings.TrimSuffix(lit, "}") + ", " + keyLit(s.ownerT, s.fks, t) + "}"
 			}
 		}
-		s.setOwner(v, o, "o-"+o, boss)
+		s.setOwner(v, o, "o-"+o, fk)
 		return lit
 	}
 	if k.mode == 2 {
-		k.slice = reflect.New(reflect.SliceOf(s.ownerT))
-		k.slice.Elem().Set(reflect.MakeSlice(reflect.SliceOf(s.ownerT), nOp, nOp))
+		// a slice of records: []Owner, or []*Owner (half of the slice cases)
+		k.ptrElems = r.Bool()
+		et, amp := s.ownerT, "&"
+		if k.ptrElems {
+			et, amp = reflect.PointerTo(s.ownerT), ""
+			k.c.Inc("cases_owner_slice_of_pointers")
+		}
+		k.slice = reflect.New(reflect.SliceOf(et))
+		k.slice.Elem().Set(reflect.MakeSlice(reflect.SliceOf(et), nOp, nOp))
 		lits := []string{}
 		for i := 0; i < nOp; i++ {
 			e := k.slice.Elem().Index(i)
+			if k.ptrElems {
+				e.Set(reflect.New(s.ownerT))
+				e = e.Elem()
+			}
 			lit := mk(e, k.owners[i])
-			k.vals = append(k.vals, &ownerVal{ok: k.owners[i], ptr: e.Addr(), lit: fmt.Sprintf("&owners[%d]", i), foreign: seeded[k.owners[i]], mem: map[string]bool{}})
-			lits = append(lits, strings.TrimPrefix(strings.TrimPrefix(lit, "User"), "Org"))
+			k.vals = append(k.vals, &ownerVal{ok: k.owners[i], ptr: e.Addr(), lit: fmt.Sprintf("%sowners[%d]", amp, i), foreign: seeded[k.owners[i]], mem: map[string]bool{}})
+			lits = append(lits, strings.TrimPrefix(lit, s.ownerT.Name()))
 		}
-		k.calls = append(k.calls, fmt.Sprintf("owners := []%s{%s}", s.ownerT.Name(), strings.Join(lits, ", ")))
+		k.calls = append(k.calls, fmt.Sprintf("owners := []%s%s{%s}", map[bool]string{true: "*"}[k.ptrElems], s.ownerT.Name(), strings.Join(lits, ", ")))
 	} else {
 		for i := 0; i < nOp; i++ {
 			p := reflect.New(s.ownerT)
@@ -451,7 +464,7 @@ func (k *kase) pickTargets(o string, n int, forDelete bool, allowNew bool, avoid
 	r, m := k.r, k.m
 	var out []*targ
 	for len(out) < n {
-		var linked, free, other []string
+		var linked, free, other, gone []string
 		for _, t := range sortedKeys(boolSet(m.recs)) {
 			if avoid[t] {
 				continue
@@ -468,18 +481,25 @@ func (k *kase) pickTargets(o string, n int, forDelete bool, allowNew bool, avoid
 				}
 			}
 		}
+		// records that an Unscoped call of this sequence removed for good (no row left)
+		for _, t := range sortedKeys(boolSet(k.gone)) {
+			if _, live := m.recs[t]; !live && !m.soft[t] && !avoid[t] && !k.callUsed[t] {
+				gone = append(gone, t)
+			}
+		}
 		var dupCands []*targ
 		for _, p := range out {
-			if p.class != "new" {
+			if p.class != "new" && p.class != "newkey" && p.class != "gone" {
 				dupCands = append(dupCands, p)
 			}
 		}
-		weighted := []string{"new", "new", "new", "free", "free", "free", "linked", "linked", "other", "other", "dup"}
+		weighted := []string{"new", "new", "new", "newkey", "gone", "gone", "gone", "free", "free", "free", "linked", "linked", "other", "other", "dup"}
 		if forDelete {
-			weighted = []string{"linked", "linked", "linked", "linked", "linked", "free", "other", "other", "dup"}
+			weighted = []string{"linked", "linked", "linked", "linked", "linked", "free", "other", "other", "dup", "absent"}
 		}
-		avail := map[string]bool{"new": allowNew && (!k.spec.composite || len(k.universe) > 0), "free": len(free) > 0,
-			"linked": len(linked) > 0, "other": len(other) > 0, "dup": len(dupCands) > 0}
+		avail := map[string]bool{"new": allowNew && (!k.spec.assigned || len(k.universe) > 0), "newkey": allowNew && !k.spec.assigned,
+			"gone": allowNew && len(gone) > 0, "absent": forDelete && (len(gone) > 0 || !k.spec.assigned || len(k.universe) > 0),
+			"free": len(free) > 0, "linked": len(linked) > 0, "other": len(other) > 0, "dup": len(dupCands) > 0}
 		var classes []string
 		for _, cl := range weighted {
 			if avail[cl] {
@@ -493,13 +513,37 @@ func (k *kase) pickTargets(o string, n int, forDelete bool, allowNew bool, avoid
 		var t *targ
 		switch cl {
 		case "new":
+			// a record that does not exist yet; its key comes from the database, or (application-
+			// assigned keys) with the value
 			k.newSeq++
-			if k.spec.composite {
+			if k.spec.assigned {
 				i := r.Intn(len(k.universe))
 				t = &targ{key: k.universe[i], name: fmt.Sprintf("n%d", k.newSeq), class: "new"}
 				k.universe = append(k.universe[:i], k.universe[i+1:]...)
 			} else {
 				t = &targ{name: fmt.Sprintf("n%d", k.newSeq), class: "new"}
+			}
+		case "newkey":
+			// a record that does not exist yet, with a key chosen by the application although the
+			// database could assign one (far away from the keys the database hands out)
+			k.newSeq++
+			t = &targ{key: fmt.Sprint(1000 - 10*k.newSeq), name: fmt.Sprintf("n%d", k.newSeq), class: "newkey"}
+			k.callUsed[t.key] = true
+		case "gone":
+			// a value of a record that an earlier Unscoped call of the sequence removed: key still set
+			key := core.Pick(r, gone)
+			t = &targ{key: key, name: k.gone[key], class: "gone", keyOnly: r.Chance(1, 5)}
+			k.callUsed[key] = true
+		case "absent":
+			// Delete of a record that has no row (removed earlier, or never stored)
+			switch {
+			case len(gone) > 0 && (r.Bool() || (k.spec.assigned && len(k.universe) == 0)):
+				key := core.Pick(r, gone)
+				t = &targ{key: key, name: k.gone[key], class: "absent", keyOnly: r.Bool()}
+			case k.spec.assigned:
+				t = &targ{key: core.Pick(r, k.universe), name: "never", class: "absent", keyOnly: r.Bool()}
+			default:
+				t = &targ{key: fmt.Sprint(2000 + r.Intn(5)), name: "never", class: "absent", keyOnly: r.Bool()}
 			}
 		case "free", "linked", "other":
 			pool := map[string][]string{"free": free, "linked": linked, "other": other}[cl]
@@ -535,6 +579,7 @@ func (k *kase) splitArgs(ts []*targ, forDelete bool) []arg {
 func (k *kase) genStep(i int) *step {
 	r, s := k.r, k.spec
 	st := &step{}
+	k.callUsed = map[string]bool{}
 	st.op = core.Pick(r, []string{"Append", "Append", "Append", "Replace", "Replace", "Delete", "Delete", "Clear", "Count", "Find"})
 	switch k.um {
 	case 1:
@@ -557,6 +602,7 @@ func (k *kase) genStep(i int) *step {
 		if r.Chance(3, 5) {
 			st.sliceLvl = true
 			st.owners = k.vals
+			st.byVal = k.ptrElems && r.Bool()
 		} else {
 			st.owners = []*ownerVal{core.Pick(r, k.vals)}
 		}
@@ -658,6 +704,9 @@ func (k *kase) genStep(i int) *step {
 	recv := st.owners[0].lit
 	if st.sliceLvl {
 		recv = "&owners"
+		if st.byVal {
+			recv = "owners"
+		}
 	}
 	db := "db"
 	if st.hard {
@@ -736,6 +785,9 @@ func (k *kase) exec(st *step) (err error, count int64, found []string) {
 	var recv interface{} = st.owners[0].ptr.Interface()
 	if st.sliceLvl {
 		recv = k.slice.Interface()
+		if st.byVal {
+			recv = k.slice.Elem().Interface()
+		}
 	}
 	vals := make([]interface{}, len(st.args))
 	for i, a := range st.args {
@@ -832,11 +884,11 @@ func (k *kase) checkState(st *step, eff *effect) []problem {
 	for _, ov := range k.vals {
 		want := sortedKeys(m.links[ov.ok])
 		fresh := reflect.New(s.ownerT)
-		var boss *int64
+		fk := ""
 		if s.store == fkOwner {
-			boss = s.ownerFK(ov.ok)
+			fk = s.ownerFK(ov.ok)
 		}
-		s.setOwner(fresh.Elem(), ov.ok, "o-"+ov.ok, boss)
+		s.setOwner(fresh.Elem(), ov.ok, "o-"+ov.ok, fk)
 		for _, via := range []struct {
 			name string
 			recv interface{}
@@ -910,6 +962,9 @@ func (k *kase) run() {
 		if st.sliceLvl {
 			c.Inc("steps_on_owner_slice")
 		}
+		if st.byVal {
+			c.Inc("steps_on_owner_slice_passed_by_value")
+		}
 		// snapshot used to attribute a deviation to a known class counterfactually
 		snap := k.snapshot()
 		err, count, found := k.exec(st)
@@ -930,15 +985,21 @@ func (k *kase) run() {
 				}
 				t.key = ids[0]
 			}
-			if t.class == "new" {
+			if t.class == "new" || t.class == "newkey" || t.class == "gone" {
+				// the call stores the record (again)
 				k.m.recs[t.key] = t.name
+				delete(k.gone, t.key)
 			}
 		}
 		if !ok || err != nil {
 			fail(k.sig(st, ps, snap, false), st, ps)
 			return
 		}
+		names := copyMap(k.m.recs)
 		eff := k.m.apply(st)
+		for _, t := range eff.hardGone {
+			k.gone[t] = names[t]
+		}
 		if eff.changed {
 			k.changes++
 		}
@@ -1051,7 +1112,7 @@ func (k *kase) refresh(ov *ownerVal) {
 	}
 	v := ov.ptr.Elem()
 	v.Set(reflect.Zero(s.ownerT))
-	var fk *int64
+	fk := ""
 	if s.store == fkOwner {
 		fk = s.ownerFK(ov.ok)
 	}
@@ -1177,24 +1238,28 @@ func (k *kase) sig(st *step, ps []problem, sn *snapshot, applied bool) string {
 		}
 	}
 	if s.store == fkOwner && (!applied || sameLinks(k.m.links, stored)) {
-		keyKind := ":value-key"
-		if s.name == "belongs_to" {
-			keyKind = ":pointer-key"
+		// (classes of the two integer-key belongs-to kinds keep their names; other kinds carry theirs)
+		keyKind, kind := ":"+s.name, ":"+s.name
+		switch s.name {
+		case "belongs_to":
+			keyKind, kind = ":pointer-key", ""
+		case "belongs_to_valkey":
+			keyKind, kind = ":value-key", ""
 		}
 		switch {
 		case st.unscoped && (st.op == "Append" || st.op == "Replace") && only("records", "count", "find"):
 			return "belongs-to-unscoped-replace-deletes-wrong-record" + keyKind
 		case st.unscoped && st.op == "Delete" && only("records", "count", "find"):
-			return "belongs-to-unscoped-delete-deletes-unnamed-record"
+			return "belongs-to-unscoped-delete-deletes-unnamed-record" + kind
 		case st.unscoped && st.op == "Clear" && whats["error"]:
-			return "belongs-to-unscoped-clear-error"
+			return "belongs-to-unscoped-clear-error" + kind
 		case !st.unscoped && st.op == "Delete" && only("count", "find"):
 			viaFresh := false
 			for _, p := range ps {
 				viaFresh = viaFresh || strings.Contains(p.msg, "a fresh")
 			}
 			if !viaFresh {
-				return "belongs-to-delete-keeps-key-in-value"
+				return "belongs-to-delete-keeps-key-in-value" + kind
 			}
 		}
 	}
